@@ -183,7 +183,6 @@ def findOption (t : Table) (key : Bytes) (st : St) : Option (OptDecl × St) :=
 
 inductive Outcome
   | ok
-  | overread       -- a read beyond the terminating NUL (undefined behaviour in the C++ code)
   | threwLogic     -- std::logic_error("Empty option name list") from the DummyOption constructor
   | threwError     -- mp::Error thrown by the (default) error handler
   | threwInvalid   -- InvalidOptionValue thrown by a setter
@@ -227,9 +226,8 @@ def parseValue (cfg : Cfg) (d : OptDecl) (s : Bytes) (st : St) : Step :=
     let (t, r) := parseDbl s
     .cont r (doEcho cfg.noEcho d (st.modify d.id (setValue d (.dbl t))))
   | .str =>
-    match parseStrVal cfg.cmdLine s with
-    | none => .stop .overread st
-    | some (v, r) => .cont r (doEcho cfg.noEcho d (st.modify d.id (setValue d (.str v))))
+    let (v, r) := parseStrVal cfg.cmdLine s
+    .cont r (doEcho cfg.noEcho d (st.modify d.id (setValue d (.str v))))
 
 /-- after the leading blanks: the name token, and the rest after blanks, an optional `=`, blanks. -/
 def nameOf (s1 : Bytes) : Bytes := s1.takeWhile isNameChar
@@ -290,10 +288,7 @@ theorem parseValue_progress {cfg : Cfg} {d : OptDecl} {s s' : Bytes} {st st' : S
     · simp at h; rw [← h.1]; exact parseInt_length_le s
     · simp at h
   · simp at h; rw [← h.1]; exact parseDbl_length_le s
-  · split at h
-    · simp at h
-    · rename_i v r hp
-      simp at h; rw [← h.1]; exact parseStrVal_length_le hp
+  · simp at h; rw [← h.1]; exact parseStrVal_length_le _ s
 
 theorem reportError_progress {cfg : Cfg} {e : Err} {s s' : Bytes} {st st' : St}
     (h : reportError cfg e s st = .cont s' st') : s' = s := by
@@ -382,7 +377,7 @@ structure Call where
   cmdLineFlag : Bool   -- caller passed FROM_COMMAND_LINE in `flags`
   throwing : Bool
 
-/-- parse a list of strings one after the other, stopping at the first exception/over-read. -/
+/-- parse a list of strings one after the other, stopping at the first exception. -/
 def parseMany (cfg : Cfg) : List Bytes → St → Outcome × St
   | [], st => (.ok, st)
   | s :: ss, st =>
